@@ -93,9 +93,14 @@ GateOK(e) ==
      ELSE res = "ok" /\ hv = 0                           \* readers ignore the writer word
   ELSE IF op \in WriteOps THEN
      IF phase = "open-refused" THEN ur # 0
+     \* a detached commit through a stale handle is built on the handle's (clean) version and never becomes
+     \* the latest one: nothing to refuse
+     ELSE IF op = "commit_detached" /\ handle = "stale" THEN after = before
      ELSE IF uw # 0
           THEN /\ after = before                          \* nothing committed over the unknown bit
                /\ IF handle = "fresh" THEN res = "unsupported" ELSE res # "ok"
+          \* (a detached commit never becomes the latest version)
+          ELSE IF op = "commit_detached" THEN res = "ok" /\ after = before
           ELSE IF handle = "fresh" THEN res = "ok" /\ after > before
                ELSE res \in {"ok", "retryable", "incompatible"} /\ (res = "ok" => after > before)
   ELSE FALSE
@@ -108,7 +113,8 @@ GateClass(e) ==
                      ELSE <<"ReadersRefuseUnknown", "none:" \o op>>)
      ELSE <<"control", "read:" \o op>>
   ELSE IF uw # 0 THEN
-     IF handle = "stale" THEN <<"WritersRefuseUnknown", "StaleHandleNotRechecked">>
+     IF op = "commit_detached" THEN <<"WritersRefuseUnknown", "DetachedCommitUnchecked">>
+     ELSE IF handle = "stale" THEN <<"WritersRefuseUnknown", "StaleHandleNotRechecked">>
      ELSE IF op \in {"append", "overwrite"} THEN <<"WritersRefuseUnknown", "none:" \o op>>
      ELSE <<"WritersRefuseUnknown", "UncheckedWritePath">>
   ELSE <<"control", "write:" \o op>>
